@@ -184,11 +184,14 @@ def Desc.safe (d : Desc) : Bool :=
 
 /-- The header codec (`json.Marshal` of `[]*fileMeta` / `json.NewDecoder(pr).Decode`). `dec` is
     a *stream* decoder: it decodes the first value and does not look at what follows.
-    `incomplete bs` says that the decoder has seen no error in `bs` but needs more input. -/
+    `incomplete bs` says that the decoder has seen no error in `bs` but needs more input.
+    `used bs` is `json.Decoder.InputOffset()` after a successful `Decode` of `bs`: the number
+    of input bytes up to the end of the decoded value (meaningful only when `dec bs` is `some`). -/
 structure Codec where
   enc : List Desc → List UInt8
   dec : List UInt8 → Option (List Desc)
   incomplete : List UInt8 → Bool
+  used : List UInt8 → Nat
 
 /-! ## payload/bin.go Encoder -/
 
@@ -329,20 +332,33 @@ deriving DecidableEq, Repr
     ("When no length provided, assume the meta is the entire payload"). The copier
     goroutine takes these bytes off the stream whether or not the JSON decoder wants them.
     (Assumption of the model: the copier's reads finish before the first part is read; with
-    `n` different from the real header length the Go code races instead — reported.) -/
+    `n ≤ 0` and bytes after the header the Go code races instead — reported; with `n > 0`
+    NewDecoder now waits for the copier.) -/
 def headerWindow (n : Int) (s : Stream) : List UInt8 × Stream :=
   if n > 0 then (s.data.take n.toNat, { s with data := s.data.drop n.toNat })
   else (s.data, { s with data := [] })
 
-/-- payload/bin.go NewDecoder after `fix: NewDecoder closes the header pipe`: a header that
-    does not decode is an error. -/
+/-- payload/bin.go NewDecoder after `fix: NewDecoder accepted a metadata length larger than
+    the metadata`: a header that does not decode is an error, and with an announced length
+    `n > 0` so is a header whose JSON value does not end exactly at byte `n` of the stream
+    (`jr.InputOffset() != int64(n)`). The pipe is read to its end first, so the copier has
+    finished (it took `min n (stream length)` bytes) whatever the outcome. -/
 def newDecoder (c : Codec) (n : Int) (sep : Option Char) (s : Stream) : DecRes :=
+  let (hdr, rest) := headerWindow n s
+  match c.dec hdr with
+  | some ds =>
+    if n > 0 ∧ (c.used hdr : Int) ≠ n then .fail else .ok (ds.map (Desc.conv sep)) rest
+  | none => .fail
+
+/-- NewDecoder as found (after `fix: NewDecoder closes the header pipe`, before the length
+    check): whatever follows the JSON value inside the announced window is ignored (S11). -/
+def newDecoderOrig (c : Codec) (n : Int) (sep : Option Char) (s : Stream) : DecRes :=
   let (hdr, rest) := headerWindow n s
   match c.dec hdr with
   | some ds => .ok (ds.map (Desc.conv sep)) rest
   | none => .fail
 
-/-- NewDecoder before the repair: the pipe writer was never closed, so a header window
+/-- NewDecoder before both repairs: the pipe writer was never closed, so a header window
     that ends before the JSON value is complete blocks `Decode` forever. -/
 def newDecoderOld (c : Codec) (n : Int) (sep : Option Char) (s : Stream) : DecRes :=
   let (hdr, rest) := headerWindow n s
@@ -411,18 +427,17 @@ structure Routed where
   received : List (Desc × List UInt8)
 deriving DecidableEq, Repr
 
-/-- http/server.go routeData (method PUT): no body ⇒ 400; `Atoi` of X-STS-MetaLen fails
-    ⇒ 400; decoder error ⇒ 500; an unsafe name, rename target or predecessor among the parts
-    ⇒ 400 (`fix: refuse file names … that leave the receiver's directories`);
-    `Prepare(parts)`; the loop. `old = true` uses the
-    unrepaired NewDecoder. -/
-def routeData (c : Codec) (rk : RecvKind) (old : Bool) (hasBody : Bool) (metaLen : List Char)
-    (sep : Option Char) (extra : Nat) (s : Stream) : Routed :=
+/-- http/server.go routeData (method PUT) over a given `DecoderFactory` `nd`: no body ⇒ 400;
+    `Atoi` of X-STS-MetaLen fails ⇒ 400; decoder error ⇒ 500; an unsafe name, rename target
+    or predecessor among the parts ⇒ 400 (`fix: refuse file names … that leave the receiver's
+    directories`); `Prepare(parts)`; the loop. -/
+def routeDataWith (nd : Int → Option Char → Stream → DecRes) (rk : RecvKind) (hasBody : Bool)
+    (metaLen : List Char) (sep : Option Char) (extra : Nat) (s : Stream) : Routed :=
   if !hasBody then ⟨.bad400, none, []⟩ else
   match parseInt64? metaLen with
   | none => ⟨.bad400, none, []⟩
   | some n =>
-    match (if old then newDecoderOld c n sep s else newDecoder c n sep s) with
+    match nd n sep s with
     | .fail => ⟨.err500, none, []⟩
     | .hang => ⟨.hang, none, []⟩
     | .ok ds rest =>
@@ -430,6 +445,17 @@ def routeData (c : Codec) (rk : RecvKind) (old : Bool) (hasBody : Bool) (metaLen
       if !ds.all Desc.safe then ⟨.bad400, none, []⟩ else
       let r := routeLoop rk ds extra 0 rest
       ⟨r.2, some ds, r.1⟩
+
+/-- http/server.go routeData with payload.NewDecoder as it is now; `old = true` uses the
+    NewDecoder that never closed its pipe. -/
+def routeData (c : Codec) (rk : RecvKind) (old : Bool) (hasBody : Bool) (metaLen : List Char)
+    (sep : Option Char) (extra : Nat) (s : Stream) : Routed :=
+  routeDataWith (if old then newDecoderOld c else newDecoder c) rk hasBody metaLen sep extra s
+
+/-- routeData with NewDecoder as found (no check of the announced length, S11). -/
+def routeDataOrig (c : Codec) (rk : RecvKind) (hasBody : Bool) (metaLen : List Char)
+    (sep : Option Char) (extra : Nat) (s : Stream) : Routed :=
+  routeDataWith (newDecoderOrig c) rk hasBody metaLen sep extra s
 
 /-- the in-memory use of the decoder: `Next` + read each part to its end with its own
     sequence of read sizes (`sizes i` for part i). Stops at the first part that does not end
@@ -501,6 +527,7 @@ def isPrefixB : List UInt8 → List UInt8 → Bool
 def caseCodec (ds : List Desc) : Codec :=
   { enc := jsonHeader
     dec := fun bs => if isPrefixB (jsonHeader ds) bs then some ds else none
-    incomplete := fun bs => isPrefixB bs (jsonHeader ds) && bs.length < (jsonHeader ds).length }
+    incomplete := fun bs => isPrefixB bs (jsonHeader ds) && bs.length < (jsonHeader ds).length
+    used := fun _ => (jsonHeader ds).length }
 
 end Sts.Wire
